@@ -25,7 +25,7 @@ ASSUMPTIONS = [
 BUDGET = {"quick": (4, 600), "thorough": (16, 4000)}
 KNOWN_KINDS = {}
 STRATA = ["lists", "broadcast", "2d", "malformed"]
-REQUIRED_CLASSES = ["shape:lists", "shape:2d", "shape:broadcast-src", "shape:broadcast-dst", "shape:broadcast-vol", "split", "reordered-both", "malformed:negative", "malformed:length", "diti", "trough-source", "wash:flush", "wash:reuse", "auto_split:off", "malformed:auto_split=False", "malformed:auto_split=True"]
+REQUIRED_CLASSES = ["shape:lists", "shape:2d", "shape:broadcast-src", "shape:broadcast-dst", "shape:broadcast-vol", "shape:broadcast-wells", "split", "reordered-both", "malformed:negative", "malformed:length", "diti", "trough-source", "wash:flush", "wash:reuse", "auto_split:off", "malformed:auto_split=False", "malformed:auto_split=True"]
 
 WASHES = [1, 2, 3, 4, "flush", "reuse"]
 
@@ -57,13 +57,13 @@ def _case(draw, stratum):
     triples = [[draw(cell_s), draw(cell_d), draw(vol)] for _ in range(n)]
     bshape = None
     if stratum == "broadcast":
-        bshape = draw(st.sampled_from(["src", "dst", "vol"]))
+        bshape = draw(st.sampled_from(["src", "dst", "vol", "wells"]))
         for t in triples:
-            if bshape == "src":
+            if bshape in ("src", "wells"):
                 t[0] = triples[0][0]
-            elif bshape == "dst":
+            if bshape in ("dst", "wells"):
                 t[1] = triples[0][1]
-            else:
+            if bshape == "vol":
                 t[2] = triples[0][2]
         shape = "broadcast-" + bshape
     malformed = None
@@ -111,6 +111,27 @@ def _case(draw, stratum):
 
 def strategy(tier, stratum):
     return _case(stratum)
+
+
+ENUM_SPACE = "malformed length combinations: n triples in 2..6 x the argument whose length is changed (source, destination, volumes) x its length in 2..7 (different from n) x device x auto_split, and a negative volume at every position of 1..4 triples"
+
+
+def enumerate_cases(tier):
+    """Every incompatible-length combination (Hypothesis rarely hits a particular (n, m) pair)."""
+    geom = {"kind": "plate", "rows": 8, "cols": 3}
+    for device in ("evo", "fluent"):
+        for auto_split in (True, False):
+            base = {"device": device, "M": 50, "diti": False, "src": geom, "dst": geom, "same": False, "shape": "lists", "dims": None, "wash": 1, "pb": "auto", "kw": {}, "label": None, "auto_split": auto_split}
+            for n in range(2, 7):
+                triples = [[[i % 8, 0], [(i + 1) % 8, 1], 5 + i] for i in range(n)]
+                for which in ("len-src", "len-dst", "len-vol"):
+                    for m in range(2, 8):
+                        if m != n:
+                            yield dict(base, triples=triples, perm=list(range(n)), malformed=which, bad_len=m, neg_at=0)
+            for n in range(1, 5):
+                triples = [[[i % 8, 0], [(i + 1) % 8, 1], 5 + i] for i in range(n)]
+                for k in range(n):
+                    yield dict(base, triples=triples, perm=list(range(n)), malformed="negative", bad_len=2, neg_at=k)
 
 
 def _mk(geom, name):
@@ -177,6 +198,8 @@ def _args(case, triples):
         return s, [d[0]], v
     if shape == "broadcast-vol":
         return np.array(s), d, v[0]
+    if shape == "broadcast-wells":
+        return s[0], [d[0]], v
     return s, d, v
 
 
